@@ -42,6 +42,14 @@ def cases(tier, seed):
                         ["--scheduler=local-priority-fifo", "--threads=2", "--combo=any+stdmutex", "--rounds=8", "--batch=4",
                          "--kind=" + kind, "--perturb=light", "--stall=12", "--seed=%d" % (seed * 1000 + n)],
                         cls="os-thread-%s" % kind, slots=3, timeout=200))
+    # one notify_one issued at the common deadline of the timed waiters, an untimed waiter queued behind them
+    for k in range(4 if tier == "quick" else 24):
+        n += 1
+        combo = COMBOS[k % 2]
+        out.append(Case("plain", "c07_condvar",
+                        ["--scheduler=" + POLICIES[(seed + k * 3) % 8], "--threads=%d" % [4, 8, 2, 16][k % 4], "--combo=" + combo,
+                         "--rounds=%d" % (1500 if tier == "quick" else 6000), "--batch=12", "--kind=timed_edge", "--perturb=" + ["none", "light"][k % 2],
+                         "--seed=%d" % (seed * 1000 + n)], cls="%s:timed_edge" % combo, slots=[4, 8, 2, 16][k % 4] + 1, timeout=600))
     for ci, combo in enumerate(COMBOS[:2]):
         for k in range(1 if tier == "quick" else 4):
             n += 1
@@ -58,7 +66,7 @@ def run(tier, seed):
     outs = run_cases("C07", cases(tier, seed), attribute=ATTR)
     return finish("C07", tier, seed, t0, outs, RULE,
                   required_bits=["blocked_waiter", "timed_blocked_waiter", "notify_one_handoff", "notify_all_handoff",
-                                 "stop_callback_ran", "os_waiter"],
+                                 "stop_callback_ran", "os_waiter", "edge_notify_hit_timed_waiter", "edge_notify_after_all_timed_out"],
                   assumptions=["std::mutex as user lock is used by plain OS threads only; pika::mutex by pika tasks only",
                                "latency of timed waits is not judged (this pika version polls until the deadline)",
                                "a spinlock as user lock of condition_variable_any is not exercised (see DESIGN.md)"])
